@@ -187,6 +187,39 @@ def switch_case_of(fn, term, succ):
     return None
 
 
+def bit_test_outcome(fn, cond, polarity):
+    """a branch on a bit test and its outcome: (node of the tested lvalue, mask, bit set?)
+    for `X & M`, `!(X & M)`, `(X & M) != 0`, `(X & M) == 0`, `(X & M) == M`, `0 == (X & M)`
+    taken with the given polarity; None for anything else"""
+    from . import cfgutil as cu
+    c, pol = normalise_cond(fn, cond, polarity)
+    c = cu.strip_casts(fn, c) if c is not None else None
+    if c is None:
+        return None
+    if c['k'] == 'bin' and c.get('op') in ('==', '!='):
+        a, b = cu.strip_casts(fn, fn.kid(c, 0)), cu.strip_casts(fn, fn.kid(c, 1))
+        for x, y in ((a, b), (b, a)):
+            if x is not None and x['k'] == 'bin' and x.get('op') == '&' and y is not None:
+                m = cu.const_of(cu.strip_casts(fn, fn.kid(x, 1)))
+                v = cu.const_of(y)
+                if m is None or v is None:
+                    continue
+                if v == 0:
+                    isset = (c['op'] == '!=') == pol
+                elif v == m:
+                    isset = (c['op'] == '==') == pol
+                else:
+                    continue
+                return fn.kid(x, 0), m, isset
+        return None
+    if c['k'] == 'bin' and c.get('op') == '&':
+        m = cu.const_of(cu.strip_casts(fn, fn.kid(c, 1)))
+        if m is None:
+            return None
+        return fn.kid(c, 0), m, pol
+    return None
+
+
 def effective_cond(fn, cond):
     """the operand whose truth decides a two-way branch: for a terminator
     whose condition is `A && B` / `A || B` the block only evaluates the
